@@ -8,8 +8,9 @@
 use crate::ctx::Ctx;
 use crate::pipe::*;
 
-pub fn child(_args: &[String]) -> i32 {
-    2
+/// `ibh child c05 <block> <seed> <tier> <start>`: the child-process blocks of the pipeline family (`pipe_x.rs`)
+pub fn child(args: &[String]) -> i32 {
+    crate::pipe_x::child(args)
 }
 
 fn combs(total: bool) -> Vec<Comb> {
@@ -113,6 +114,23 @@ pub fn run(cx: &mut Ctx) {
     }
     cx.exhaustive_blocks.push(format!("inputs of 0..={maxn} rows x all combiners x fan-out {{None,0,1,2,3,7}} x classic/lifted x seq + par 1..min(n+1,6) ({n_ex} programs)"));
 
+    // engine / generator breadth (pipe_wide.rs, pipe_injoin.rs): the fan-out domain beyond 64 (huge fan-outs in a child
+    // process under an address-space limit — "terminates for every fan-out"), every combine kind inside either join side
+    // (the sub-plan runner has its own fan-in loop), built-in Min/Max on the global / lifted entry points behind emptied
+    // partitions, wide plans (65..256 partitions), user combiners with non-`Option` accumulators
+    {
+        use crate::pipe_wide::WideKind as W;
+        let xo = crate::pipe_x::XOpts::of(&o);
+        crate::pipe_wide::fanout_block(cx, &xo);
+        crate::pipe_injoin::injoin_block(cx, &crate::pipe_injoin::combine_side_barriers(), cx.budget(3, 4), &xo);
+        crate::pipe_wide::minmax_block(cx, &xo);
+        crate::pipe_wide::wide_block(cx, &[W::CvSum, W::CvCount, W::CvTopk, W::CvUser, W::Lifted, W::LiftedRaw, W::Global, W::GlobalLifted, W::Distinct, W::DistinctPerKey, W::JoinGbkSides], cx.budget(12, 60), &xo);
+        crate::pipe_wide::many_keys_case(cx, vec![Step::CombineValues(Comb::Sum)], &[Mode::Seq, Mode::Par(200)]);
+        crate::pipe_wide::many_keys_case(cx, vec![Step::Gbk, Step::CombineValuesLifted(Comb::Topk(2))], &[Mode::Seq, Mode::Par(256)]);
+        user_combiner_block(cx, &xo);
+        large_k_block(cx, &xo);
+    }
+
     // combines over a streamed file source incl. the empty file (zero partitions reach the barrier)
     for n in [0usize, 1, 6] {
         let src: Vec<V> = (0..n as i64).map(|i| V::pair(V::I(i % 2), V::I(i + 1))).collect();
@@ -168,4 +186,61 @@ pub fn run(cx: &mut Ctx) {
         check_prog(cx, &p, &modes, &o);
         done += 1;
     }
+}
+
+/// USER combiners with non-`Option` accumulators (`pipe_ucomb.rs`: (sum mod m, count) pair, sorted-Vec union, max by
+/// (|x|, x) in a one-slot Vec) on every entry point, exhaustive small scope + ties, next to `MinT` / `MaxT`
+fn user_combiner_block(cx: &mut Ctx, o: &crate::pipe_x::XOpts) {
+    use crate::pipe_x::{check_prog_x, XMode};
+    let ucs = |i: usize| -> Vec<Comb> { vec![Comb::USumMod(1 + (i as i64 % 7)), Comb::UUnion, Comb::UMaxAbs] };
+    let mut n = 0;
+    for len in 0..=cx.budget(5, 7) {
+        let src: Vec<V> = (0..len as i64).map(|i| V::I((i * 7 + 3) % 9 - 4)).collect();
+        let ksrc: Vec<V> = (0..len as i64).map(|i| V::pair(V::I(i % 2), V::I((i * 5 + 1) % 7 - 3))).collect();
+        let modes: Vec<XMode> = std::iter::once(XMode::Seq).chain((1..=(len + 1).min(6)).map(XMode::Par)).collect();
+        for c in ucs(len) {
+            for fo in [None, Some(0), Some(1), Some(2), Some(3)] {
+                for lifted in [false, true] {
+                    let step = if lifted { Step::CombineGloballyLifted(c.clone(), fo) } else { Step::CombineGlobally(c.clone(), fo) };
+                    check_prog_x(cx, &Prog { shape: Shape::T, src: src.clone(), steps: vec![step] }, &modes, o);
+                    n += 1;
+                }
+            }
+            check_prog_x(cx, &Prog { shape: Shape::KV, src: ksrc.clone(), steps: vec![Step::CombineValues(c.clone())] }, &modes, o);
+            check_prog_x(cx, &Prog { shape: Shape::KV, src: ksrc.clone(), steps: vec![Step::Gbk, Step::CombineValuesLifted(c.clone())] }, &[XMode::Seq, XMode::Par(2), XMode::Par(3)], o);
+            // raw grouped input: repeated keys, empty groups
+            let g: Vec<V> = (0..len as i64).map(|i| V::pair(V::I(i % 2), V::L((0..(i % 3)).map(|j| V::I(i - j * 2)).collect()))).collect();
+            check_prog_x(cx, &Prog { shape: Shape::KG, src: g, steps: vec![Step::CombineValuesLifted(c.clone())] }, &[XMode::Seq, XMode::Par(2), XMode::Par(3)], o);
+            n += 3;
+        }
+    }
+    // ties of |x| and of to_int between structurally different values (max-by-abs must pick by the total order)
+    let tie: Vec<V> = vec![V::I(2), V::I(-2), V::S("ab".into()), V::pair(V::I(1), V::I(1)), V::pair(V::I(-1), V::I(-1)), V::L(vec![V::I(7), V::I(7)]), V::I(-2), V::S("ab".into())];
+    for rot in 0..tie.len() {
+        let src: Vec<V> = (0..tie.len()).map(|i| tie[(i + rot) % tie.len()].clone()).collect();
+        for c in [Comb::UMaxAbs, Comb::UUnion, Comb::USumMod(3)] {
+            check_prog_x(cx, &Prog { shape: Shape::T, src: src.clone(), steps: vec![Step::CombineGlobally(c.clone(), Some(2))] }, &[XMode::Seq, XMode::Par(2), XMode::Par(3), XMode::Par(8)], o);
+            check_prog_x(cx, &Prog { shape: Shape::T, src: src.clone(), steps: vec![Step::KeyBy(KeyFn::Kmod(2)), Step::CombineValues(c.clone())] }, &[XMode::Seq, XMode::Par(3)], o);
+            n += 2;
+        }
+    }
+    cx.exhaustive_blocks.push(format!("user combiners (sum mod m, count) / sorted-Vec union / max-by-(|x|,x): inputs of 0..={} rows x fan-out {{None,0,1,2,3}} x classic/lifted global x per-key classic / lifted after gbk / lifted on raw groups x seq + par 1..6; tie rotations ({n} programs)", cx.budget(5, 7)));
+}
+
+/// `top_k_per_key(k)` / `TopK::new(k)` for k beyond 13: k around and far above the number of values, `usize::MAX`
+/// (the `len1 + len2 <= k` extend path for every merge; `BinaryHeap::with_capacity(k)` is only reached when k is
+/// smaller than the data)
+fn large_k_block(cx: &mut Ctx, o: &crate::pipe_x::XOpts) {
+    use crate::pipe_x::{check_prog_x, XMode};
+    let mut n = 0;
+    for (i, k) in [14usize, 16, 23, 24, 25, 64, 1000, u32::MAX as usize, usize::MAX - 1, usize::MAX].into_iter().enumerate() {
+        let len = 24 + i;
+        let src: Vec<V> = (0..len as i64).map(|j| V::pair(V::I(j % 2), V::I((j * 11 + 5) % 17 - 6))).collect();
+        for steps in [vec![Step::TopKPerKey(k)], vec![Step::CombineValues(Comb::Topk(k))], vec![Step::Gbk, Step::CombineValuesLifted(Comb::Topk(k))],
+                      vec![Step::Values, Step::CombineGlobally(Comb::Topk(k), Some(2))], vec![Step::Values, Step::CombineGloballyLifted(Comb::Topk(k), None)]] {
+            check_prog_x(cx, &Prog { shape: Shape::KV, src: src.clone(), steps }, &[XMode::Seq, XMode::Par(2), XMode::Par(5), XMode::Par(len)], o);
+            n += 1;
+        }
+    }
+    cx.exhaustive_blocks.push(format!("TopK with k in {{14,16,23,24,25,64,1000,u32::MAX,usize::MAX-1,usize::MAX}} on 24..33 rows over 2 keys: top_k_per_key / combine_values / lifted after gbk / global fan-out 2 / global lifted x seq + par 2,5,len ({n} programs)"));
 }
